@@ -729,7 +729,9 @@ def run_live_exec(case):
                     elif mode == "changed" or mode == "stale":
                         sel_ = [b for b in bets if b["id"] in changed]
                     else:
-                        sel_ = [bets[k % len(bets)] for k in mode] if bets else []
+                        # a partial update: some of the orders the stream knows about since (re)connection
+                        known = [b for b in bets if b["id"] in cache]
+                        sel_ = [known[k % len(known)] for k in mode] if known else []
                     rows, facts = [row_of(b) for b in sel_], [fact_of(b) for b in sel_]
                     if mode in ("full", "changed", "everything"):
                         changed.clear()
